@@ -27,7 +27,7 @@ Theorem C03img_affine :
     from_sequence_img unitv ims odim = Ok r ->
     (dim < 3 ->
        2 <= length ims /\
-       col3 (iaff r) dim = vsub (trans_of (iaff (nth 1 ims im0))) (trans_of (iaff im0)) /\
+       col3 (iaff r) dim = map Qred (vsub (trans_of (iaff (nth 1 ims im0))) (trans_of (iaff im0))) /\
        forall i k, i < 4 -> k < 4 -> ~ (i < 3 /\ k = dim) -> mentry (iaff r) i k = mentry (iaff im0) i k) /\
     (3 <= dim -> iaff r = iaff im0).
 Proof. exact merge_affine_law. Qed.
@@ -105,7 +105,7 @@ Proof. eexists. split; [apply ex_uniform; reflexivity|]. split; vm_compute; refl
 
 Example C03img_affine_nonvacuous :
   exists r, from_sequence_img unit_exact ex_ims (Some 0) = Ok r /\
-            col3 (iaff r) 0 = vsub [23 # 2; -6 # 1; 3]%Q [10; -8 # 1; 3]%Q.
+            col3 (iaff r) 0 = [3 # 2; 2; 0]%Q.
 Proof. eexists. split; vm_compute; reflexivity. Qed.
 
 (** a 5-D merge: (2,1,1,1,2) inputs along dim 3, header slice dims 2 and 1: the merged header has none *)
